@@ -43,35 +43,36 @@ type Rec struct {
 
 // Backend is one real world plus the bookkeeping to address it by model serials.
 type Backend struct {
-	Name    string
-	Pol     Policy
-	Cfg     Config
-	W       *ecs.World
-	U       ecs.Unsafe
-	IDs     [comps.N]ecs.ID
-	Reg     [comps.N]bool // registered so far (IDs[c] is meaningless otherwise)
-	H       []ecs.Entity  // handle by serial (zero value = not bound yet)
-	Ser     map[ecs.Entity]int
-	Issued  map[ecs.Entity]bool // every handle issued since creation / last reset
-	maps    []Mapper
-	exs     map[string]Exchanger
-	flt     []Filter // parallel to model.Filters (nil for unsafe filters)
-	uflt    map[int]ecs.UnsafeFilter
-	twin    map[int]Filter // never-registered twins of registered filters (C05)
-	obs     []Obs          // parallel to model.Obs
-	obsOn   []bool
-	pend    []int // serials of entities being created, not yet bound to a handle
-	rec     []Rec
-	evReg   ecs.EventRegistry
-	evT     [NumEv]ecs.EventType
-	all     *ecs.Filter0
-	Trace   *strings.Builder
-	openQ   map[int]*openQuery
-	useTwin bool
-	saved   *backendDump
+	inReenter bool // a callback is changing the world itself
+	Name      string
+	Pol       Policy
+	Cfg       Config
+	W         *ecs.World
+	U         ecs.Unsafe
+	IDs       [comps.N]ecs.ID
+	Reg       [comps.N]bool // registered so far (IDs[c] is meaningless otherwise)
+	H         []ecs.Entity  // handle by serial (zero value = not bound yet)
+	Ser       map[ecs.Entity]int
+	Issued    map[ecs.Entity]bool // every handle issued since creation / last reset
+	maps      []Mapper
+	exs       map[string]Exchanger
+	flt       []Filter // parallel to model.Filters (nil for unsafe filters)
+	uflt      map[int]ecs.UnsafeFilter
+	twin      map[int]Filter // never-registered twins of registered filters (C05)
+	obs       []Obs          // parallel to model.Obs
+	obsOn     []bool
+	pend      []int // serials of entities being created, not yet bound to a handle
+	rec       []Rec
+	evReg     ecs.EventRegistry
+	evT       [NumEv]ecs.EventType
+	all       *ecs.Filter0
+	Trace     *strings.Builder
+	openQ     map[int]*openQuery
+	useTwin   bool
+	saved     *backendDump
 }
 
-type openQuery struct {
+type openQuery struct { // (see also Backend.inReenter)
 	q        Query
 	expected map[int]bool
 	visited  []int
@@ -155,9 +156,15 @@ func (b *Backend) Exchanger(i int, rem []int) Exchanger {
 		return x
 	}
 	x := ExInsts[i].New(b.W)
-	if len(rem) > 0 {
-		x.Removes(compsOf(rem))
+	if len(rem) >= 2 && (rem[0]+len(rem))%2 == 1 {
+		// "can be called multiple times in chains"
+		for _, c := range rem {
+			useComps([]int{c}, x.Removes)
+		}
+	} else if len(rem) > 0 {
+		useComps(rem, x.Removes)
 	}
+	flushScramble()
 	b.exs[key] = x
 	return x
 }
